@@ -45,11 +45,27 @@ class Ctx:
 
     # ---- line-protocol drivers -------------------------------------------------------------
     def hook(self, cmd, lines, extra_args=()):
-        p = C.run([C.IMPL, "verif-hook", cmd] + list(extra_args), input="\n".join(lines) + "\n")
-        out = p.stdout.decode(errors="replace").splitlines()
-        if p.returncode != 0 or len(out) != len(lines):
-            raise RuntimeError("hook %s: rc=%d, %d answers for %d requests; stderr=%s" % (cmd, p.returncode, len(out), len(lines), p.stderr.decode(errors="replace")[-500:]))
-        return out
+        """answers of the real code, one per request; a request that kills the hook process (abort, e.g. a failed allocation,
+        which catch_unwind cannot catch) is answered `ABORT` and the remaining requests go to a fresh process"""
+        answers = []
+        rest = list(lines)
+        guard = 0
+        while rest:
+            p = C.run([C.IMPL, "verif-hook", cmd] + list(extra_args), input="\n".join(rest) + "\n")
+            out = p.stdout.decode(errors="replace").splitlines()
+            if p.returncode == 0 and len(out) == len(rest):
+                answers.extend(out)
+                break
+            # the process died while answering request number len(out)
+            k = min(len(out), len(rest) - 1)
+            answers.extend(out[:k])
+            answers.append("ABORT")
+            self.notes.append("hook %s died (rc=%s) on request %d: %s" % (cmd, p.returncode, len(answers) - 1, rest[k][:120]))
+            rest = rest[k + 1:]
+            guard += 1
+            if guard > 50:
+                raise RuntimeError("hook %s keeps dying; stderr=%s" % (cmd, p.stderr.decode(errors="replace")[-300:]))
+        return answers
 
     def model(self, cmd, lines):
         p = C.run([C.MODEL, cmd], input="\n".join(lines) + "\n")
